@@ -141,6 +141,12 @@ def render_pkg(p):
 # --------------------------------------------------------------- invocations
 MODES = ["types", "file", "filesep", "star", "starsep", "star_noline", "star_space"]
 INVOKE = ["pkg", "pkgdot", "parent", "parent_bare", "abs"]
+# invocations with flags written AFTER the [dir] argument (the usage line documents `[dir] [-s] [-v]`; the flag
+# package stops at the first positional argument), from a working directory that is itself a loadable package
+# holding the same types: the parent of p (parent_trail) or a sibling of p (sibling_trail).  Any write must
+# still land in p.
+TRAIL_INVOKE = ["parent_trail", "sibling_trail"]
+TRAILS = [["-v"], ["-sep"], ["-ver=v1.2.3"], ["-v", "-raw"]]
 
 
 def extra_flags(rng, cmd):
@@ -159,10 +165,15 @@ class Inv:
         self.p, self.mode, self.invoke, self.flags = p, mode, invoke, flags
         self.types, self.file, self.genfile_src = types, file, genfile_src
         self.to = None
+        self.trail = []          # flags after [dir]
 
     def dirarg(self, root):
         return {"pkg": None, "pkgdot": ".", "parent": "./p", "parent_bare": "p",
-                "abs": str(Path(root) / "p")}[self.invoke]
+                "abs": str(Path(root) / "p"), "parent_trail": "./p", "sibling_trail": "../p"}[self.invoke]
+
+    def twin_dir(self):
+        """the directory (relative to the case root) that holds a copy of the package sources: the cwd"""
+        return {"parent_trail": ".", "sibling_trail": "q"}.get(self.invoke)
 
     def args(self, root):
         a = [self.p.cmd] + list(self.flags)
@@ -182,12 +193,14 @@ class Inv:
         d = self.dirarg(root)
         if d is not None:
             a.append(d)
-        return a
+        return a + list(self.trail)
 
     def cmdline(self, root):
         return "shoot " + " ".join(self.args(root))
 
     def cwd(self, root):
+        if self.invoke == "sibling_trail":
+            return Path(root) / "q"
         return Path(root) / "p" if self.invoke in ("pkg", "pkgdot") else Path(root)
 
     def dirdot(self):
@@ -222,6 +235,8 @@ def gen_inv(rng, p, root_for_abs, mode=None, invoke=None, history=False):
     invoke = "pkg" if history else (invoke or rng.choice(INVOKE))
     flags = extra_flags(rng, p.cmd)
     inv = Inv(p, mode, invoke, flags)
+    if invoke in TRAIL_INVOKE:
+        inv.trail = list(rng.choice(TRAILS))
     if mode == "types_to":
         s, d = rng.choice(p.extras())
         inv.types, inv.to = [s], d
@@ -381,10 +396,56 @@ def keep_links(root, keepdir):
         if rel.endswith("/") or ino in res:
             continue
         k = keepdir / str(ino)
-        if not k.exists():
-            os.link(Path(root) / rel, k)
+        if not os.path.lexists(k):
+            os.link(Path(root) / rel, k, follow_symlinks=False)      # a symbolic link is kept as a link
         res[ino] = k
     return res
+
+
+def read_kept(k):
+    """content of a kept inode, in the representation of snapshot()"""
+    if os.path.islink(k):
+        return b"symlink:" + os.readlink(k).encode()
+    return Path(k).read_bytes()
+
+
+# ------------------------------------------------------- entries at output names
+OBSTACLES = ["sym_inside", "sym_outside", "sym_dangling", "hardlink_hw"]
+
+
+def plant_obstacle(root, outname, kind, tag):
+    """make the name of an expected output pre-exist as something else than an old output:
+    sym_inside   a symbolic link to a hand-written file of the package directory
+    sym_outside  a symbolic link to a hand-written file in a sibling directory
+    sym_dangling a symbolic link to nothing
+    hardlink_hw  a second name (hard link) of a hand-written file of the package directory
+    (a directory at the name is the rename-failure case; a FIFO would block `go list`, not generated).
+    The hand-written files hold valid Go with a unique declaration, so the package still loads.
+    What must happen: the NAME is rebound to the new file; the link's target / the other name keeps
+    its inode and bytes.  returns {relative path: what}"""
+    root = Path(root)
+    out = root / "p" / outname
+    if os.path.lexists(out):
+        os.unlink(out)
+    hw = ("package p\n\n// hand written, %s\nvar Hw%s = 1\n" % (kind, tag)).encode()
+    made = {}
+    if kind == "sym_inside":
+        (root / "p" / "hw_inside.txt").write_bytes(hw)
+        os.symlink("hw_inside.txt", out)
+        made["p/hw_inside.txt"] = "hand-written target of the link"
+    elif kind == "sym_outside":
+        (root / "hw").mkdir(exist_ok=True)
+        (root / "hw" / "user_extra.go").write_bytes(hw)
+        os.symlink("../hw/user_extra.go", out)
+        made["hw/user_extra.go"] = "hand-written target of the link"
+    elif kind == "sym_dangling":
+        os.symlink("nowhere/gone.go", out)
+    else:
+        (root / "p" / "NOTES_hw.txt").write_bytes(hw)
+        os.link(root / "p" / "NOTES_hw.txt", out)
+        made["p/NOTES_hw.txt"] = "hand-written file, other name of the same inode"
+    made["p/" + outname] = kind
+    return made
 
 
 # ------------------------------------------------------------ strace projection
